@@ -6,6 +6,9 @@ V = os.path.dirname(os.path.dirname(os.path.abspath(__file__)))
 TECH = "deterministic simulation with fault injection: real writer code run against a simulated kernel / target / clock / destination behind interposed libc symbols; seeded scenario search, oracle on each run, minimised replay file"
 
 CLAIMED = {
+ "C08": ("exploration", "3 C08", "1..12 synthetic ELF images (with/without GNU note, note only in a section, section table not mapped so that the id is only reachable from the file, with/without DT_SONAME, all-zero id) mapped as three contiguous lines each, at zero or non-zero file offset (archive case), present / deleted on disk, names with spaces, non-ASCII and .so.N suffixes, a non-ELF file mapping, a library below the executable (entry-point module not lowest), caller-supplied mappings containing / partially overlapping / disjoint. Oracle = module-list model built from the world with an independent ELF reader (/verif/sim/src/elfref.rs).", "Grouping = maximal runs of contiguous same-name lines (reserved-gap merging, C13's subject, is not generated); images whose memory copy and file disagree about the id are not generated; extra modules that really hold an ELF image (vDSO) are allowed."),
+ "C14": ("exploration", "3 C14", "I/O-facing part of the statement: ELF images (well-formed variants, structure-aware corruptions of every ELF/program/section/note/dynamic header field with boundary values, random and truncated byte strings) are delivered through both seams - target memory via the process reader (with EIO / EFAULT / short reads injected at a chosen read) and the file via open + mmap (missing file, mmap failure, EMFILE). Oracle: no panic, no budget exhaustion; on well-formed images build id and SONAME equal the independent reader's and memory/file answers agree.", "The first two clauses have no schedule or fault in them; for those the simulator is the delivery vehicle and the strength is that of seeded generation against a reference reader. Installed ELF files are not enumerated; 32-bit images are not generated."),
+ "C18": ("exploration", "3 C18", "Targets with arbitrary cmdline/environ bytes (empty, unterminated, 100 KiB), extra auxv keys, 0..40 descriptors of every kind incl. non-UTF-8 and deleted paths and one vanishing mid-listing, shared and odd-permission mappings, cpuinfo variants (1..255 processors, field order, vendor lengths), linker lists of 0..12 objects reachable through the kernel's auxv, through caller-supplied values, through a mix, and through caller-supplied values that lead to a different list; short reads. Oracle compares each stream with what the simulated kernel holds while the target is stopped.", "cpuinfo text is rendered from the generator's machine description (tag cpu:...), which is the oracle's ground truth for family/model/stepping/vendor/count."),
  "C11": ("fault_enumeration", "3 C11", "All 32 subsets of the five fail points x {1,2,5,24} threads x crash context on/off (indices 0..255, enumerated), then natural failures of each best-effort step injected through the kernel seam singly and in pairs (stop EPERM / timeout, auxv missing / truncated, unreadable names, attach EPERM / ESRCH for some or all threads, cpuinfo open error / missing fields, each copied /proc or release file failing at the open that feeds the raw stream, AT_PHDR absent / unreadable, unreadable r_debug, fd directory unreadable). Oracle: dump Ok; structure sound (C01 oracle); soft-error stream present, JSON list, empty when nothing failed, the step's key present for every injected failure, one ReadThreadNameFailed per name the kernel could not deliver; every stream not touched by the failure equals the failure-free twin's stream (offset-independent digest).", "Mapping from injected failure to the expected JSON key and to the set of legitimately affected streams is part of the generator (tags expect:/affects:)."),
  "C17": ("exploration", "3 C17", "Boundary grid first (8 source alignments x 22 lengths {1..17, 4095..4097, 65535, 65536} x positions {inside, ending at the end of, crossing the end of a readable run} x 4 strategies), then random (src, len) over an address space with readable runs, a PROT_NONE run and holes; the auto-probing reader with the earlier strategies failing by fault. Oracle: fully readable range => Ok(len) and bytes == simulated memory; otherwise Err or a prefix of the true bytes, never other data.", "Read-call semantics of the simulated kernel (measured on this sandbox's kernel: process_vm_readv honours protections and returns partial counts, /proc/pid/mem and PEEKDATA use FOLL_FORCE)."),
  "C04": ("exploration", "3 C04", "Seeded search over thread sets (1..64 threads, field-unique register values, sandbox and foreign-traced threads), thread exits placed by trigger at every phase (before/during enumeration, at the name read, between attaches, between attach and wait), stop behaviour (fail point, late, staggered) and busy threads stepped 1..7 micro-steps per writer call. Oracle: completeness, no duplicates, every context field equals the simulated kernel's register state while stopped, and the kernel-side single-instant invariant (no listed thread executed between its register read and the last remote memory read) plus the three-counter content check.", "ptrace / group-stop / signal model of the simulated kernel."),
